@@ -244,6 +244,41 @@ def register(w):
         ensures=[("every_non_drop_invar_resolvable", post_inputs)], raises={"RuntimeError", "TypeError"}, ret=NoneT, props=["C16"],
     ))
 
+    # ---------------------------------------------------------------- values returned by a lowering are bound positionally only when the arities agree
+    w.add_contract(Contract(
+        f"{MO}:_outvar_needs_binding", params={"ctx": Ref(CTX), "var": Ref(JVAR)}, ret=Bool, raises=set(),
+        ensures=[("true_exactly_when_nothing_connected_is_bound", lambda c: c.result.term == z3.Not(bound_ok(c.ex, c["ctx"].term, c["var"].term)))], props=["C16"],
+    ))
+    n_returned = w.fn("lowering_result_length", ref_sort(OPQ), z3.IntSort())
+
+    def post_coerce(c: Ctx):
+        r = c.result
+        if isinstance(r, VNone):
+            return z3.BoolVal(True)
+        return z3.And(r.length == n_returned(c["result"].term), r.length >= 0)
+    w.add_contract(Contract(f"{MO}:_coerce_lowering_result_values", params={"result": Ref(OPQ), "primitive_name": Str}, ret=Opt(Seq(Ref(VALUE))), assumed=True, may_raise=["TypeError"],
+                            ensures=[("the_values_of_the_result_in_order", post_coerce)], note="None, [value] or list(values) of what the plugin's lower() returned; TypeError for anything else"))
+
+    def arity_fact(which):
+        def inv(lc):
+            if lc.phase != "inv-init":
+                return []
+            rv, nd, ub = lc["returned_values"], lc["non_drop_outvars"], lc["unbound_outvars"]
+            if not all(isinstance(x, VSeq) for x in (rv, nd, ub)):
+                raise OutOfSubset("unexpected kinds of the arity variables")
+            want = nd.length if which == "all" else ub.length
+            return [(f"lowering-contract:values_are_bound_positionally_only_when_one_value_per_{'non_drop' if which == 'all' else 'still_unbound'}_outvar_was_returned", rv.length == want)]
+        return inv
+    BIND_MODS = [(BLD, "_var2val")]
+    c_bind = Contract(
+        f"{MO}:bind_returned_lowering_values", params={"ctx": Ref(CTX), "eqn": Ref(EQN), "result": Ref(OPQ), "primitive_name": Str},
+        loops={0: LoopSpec(invariant=arity_fact("all"), label="one-value-per-outvar"), 1: LoopSpec(invariant=arity_fact("unbound"), label="one-value-per-unbound-outvar")},
+        raises={"RuntimeError", "TypeError"}, ret=NoneT, props=["C16"], opaque_externals=True, witnesses=["C16_returned_value_arity_family"],
+    )
+    c_bind.assumed_preconditions = {"IRContext.record_var_symbolic_dim_origins:value_declares_the_vars_shape":
+                                    "the values come from a plugin's lower(); that they declare the shape of the variable they stand for is the plugins' obligation (C08, not under contract)"}
+    w.add_contract(c_bind)
+
     # ---------------------------------------------------------------- rejection guards (shared with C06)
     def guard_world_hook(ex, what):
         g = ex.frames[0]["contract"].guard if ex.frames and getattr(ex.frames[0].get("contract"), "guard", None) else None
